@@ -343,18 +343,20 @@ def endLoop (name : Str) : Nat → St → St
     | [] => s
     | f :: _ => if f.name ≠ name then endLoop name n (popImplicit s) else s
 
+/-- the final `inTag.pop()` of `handle_endtag` with its bookkeeping (`name` is the tag name of the end tag) -/
+def popExplicit (name : Str) (s : St) : St :=
+  match s.stack with
+  | [] => s
+  | f :: fs =>
+    let p := attach f.close fs s.closed
+    { s with stack := p.1, closed := p.2,
+             level := if name ≠ wrapper then s.level - 1 else s.level,
+             inPre := if isPre name then s.inPre - 1 else s.inPre }
+
 /-- `handle_endtag` -/
 def handleEnd (s : St) (name : Str) : St :=
   if !s.stack.any (fun f => f.name = name) then s
-  else
-    let s := endLoop name s.stack.length s
-    match s.stack with
-    | [] => s
-    | f :: fs =>
-      let p := attach f.close fs s.closed
-      { s with stack := p.1, closed := p.2,
-               level := if name ≠ wrapper then s.level - 1 else s.level,
-               inPre := if isPre name then s.inPre - 1 else s.inPre }
+  else popExplicit name (endLoop name s.stack.length s)
 
 def appendText (s : St) (verb : Bool) (t : Str) : St :=
   match s.stack with
